@@ -56,6 +56,7 @@ opcodes = {
     "memory.size": 0x3F,
     "memory.grow": 0x40,
     "i32.const": 0x41,
+    "f32.const": 0x43,
     "i32.eqz": 0x45,
     "i32.eq": 0x46,
     "i32.ne": 0x47,
@@ -95,6 +96,22 @@ def PackInteger(v):
 
 def WriteInteger(output: BinaryIO, i: int):
     output.write(PackInteger(i))
+
+
+def PackSignedInteger(v):
+    """Signed LEB128: the last group carries the sign in bit 6."""
+    output = []
+    while True:
+        b = v & 0x7F
+        v >>= 7
+        if (v == 0 and not (b & 0x40)) or (v == -1 and (b & 0x40)):
+            output.append(b)
+            return bytes(output)
+        output.append(b | 0b1000_0000)
+
+
+def WriteSignedInteger(output: BinaryIO, i: int):
+    output.write(PackSignedInteger(i))
 
 
 def PackFloat(v):
@@ -367,10 +384,16 @@ class Instruction:
 
     def WriteTo(self, output: BinaryIO):
         WriteByte(output, self.__opcode)
-        # TODO Handle non-integer arguments
         if self.__args:
             for arg in self.__args:
-                WriteInteger(output, arg)
+                if self.__opcode == opcodes["f32.const"]:
+                    # The immediate of f32.const is the IEEE 754 value itself
+                    WriteFloat(output, arg)
+                elif self.__opcode == opcodes["i32.const"]:
+                    # The immediate of i32.const is a signed LEB128 integer
+                    WriteSignedInteger(output, arg)
+                else:
+                    WriteInteger(output, arg)
 
 
 class Code:
